@@ -1,5 +1,9 @@
 """C09 - decided by TLC on the end-to-end traces (ObsTrace/Props) and on the
-Pipeline model; see checks/pipe.py for the scenario families."""
+Pipeline model; see checks/pipe.py for the scenario families.  The accounting
+component itself (ReadFileChunk) has its own specification, ReadChunk.tla,
+whose every transition is replayed into the real class (c09_chunk.py)."""
+import json
+
 from checks import pipe
 
 
@@ -7,11 +11,20 @@ def run(tier, seed):
     extra = None
     try:
         from checks import pipeline_mc
-        extra = lambda ck, t, s: pipeline_mc.run(ck, 'C09', t, s)
+        from checks import c09_chunk
+
+        def extra(ck, t, s):
+            pipeline_mc.run(ck, 'C09', t, s)
+            c09_chunk.run(ck, t, s)
     except ImportError:
         pass
     return pipe.run('C09', tier, seed, extra=extra)
 
 
 def replay(path):
+    with open(path) as f:
+        rp = (json.load(f).get('replay') or {})
+    if rp.get('kind') == 'c09-chunk':
+        from checks import c09_chunk
+        return c09_chunk.replay_file(rp)
     return pipe.replay(path)
